@@ -90,6 +90,9 @@ package mpbgv
 // ---- sum of the additive shares.  The lift R_t -> R_Q is NAMED (uf_lift).
 //@ afunc EncToShareProtocol.GenShare
 //@   property C16
+//@   assigns publicShareOut.Value, secretShareOut.Value
+//@   draw XSMUDGE
+//@   draw UNIFORM
 //@   requires dist(e2s.KeySwitchProtocol.noiseSampler) == XSMUDGE
 //@   requires isntt(sk.Value.Q) && mexp(sk.Value.Q) == 1 && isntt(e2s.zero.Value.Q) && mexp(e2s.zero.Value.Q) == 1 && val(e2s.zero.Value.Q) == 0
 //@   requires len(ct.Value) >= 2 && ct.MetaData.CiphertextMetaData.IsNTT && isntt(ct.Value[1]) && mexp(ct.Value[1]) == 0 && len(publicShareOut.Value.Coeffs) >= 1 && len(ct.Value[1].Coeffs) >= 1
@@ -110,10 +113,27 @@ package mpbgv
 // ---- reference polynomial (-crp * s_i + one smudging draw) PLUS the lift of its additive share
 //@ afunc ShareToEncProtocol.GenShare
 //@   property C16
+//@   assigns c0ShareOut.Value
+//@   draw XSMUDGE
 //@   requires dist(s2e.KeySwitchProtocol.noiseSampler) == XSMUDGE
 //@   requires isntt(sk.Value.Q) && mexp(sk.Value.Q) == 1 && isntt(s2e.zero.Value.Q) && mexp(s2e.zero.Value.Q) == 1 && val(s2e.zero.Value.Q) == 0
 //@   requires isntt(crp.Value) && dom(crp.Value) == 1 && mexp(crp.Value) == 0 && len(crp.Value.Coeffs) >= 1 && len(c0ShareOut.Value.Coeffs) >= 1
-//@   requires iscoef(secretShare.Value) && dom(secretShare.Value) == 0 && mexp(secretShare.Value) == 0
 //@   let smudge = fresh(XSMUDGE, old(draws(XSMUDGE)))
 //@   ensures implies(isnil(err), val(c0ShareOut.Value) == smudge - old(val(crp.Value)) * val(sk.Value.Q) + uf_lift(old(val(secretShare.Value))))
 //@   ensures implies(isnil(err), draws(XSMUDGE) == old(draws(XSMUDGE)) + 1)
+
+// ---- refresh (masked transform without a transform): ONE mask per party - the additive share of the conversion to
+// ---- shares is the additive share of the conversion back - so that the two halves of the share add up to
+// ---- c1 * s_in - crs * s_out + two smudging draws, and the mask cancels in the aggregate
+//@ afunc MaskedTransformProtocol.GenShare
+//@   property C16
+//@   case true ; set transform = nil
+//@   requires dist(rfp.e2s.KeySwitchProtocol.noiseSampler) == XSMUDGE && dist(rfp.s2e.KeySwitchProtocol.noiseSampler) == XSMUDGE
+//@   requires isntt(skIn.Value.Q) && mexp(skIn.Value.Q) == 1 && isntt(skOut.Value.Q) && mexp(skOut.Value.Q) == 1
+//@   requires isntt(rfp.e2s.zero.Value.Q) && mexp(rfp.e2s.zero.Value.Q) == 1 && val(rfp.e2s.zero.Value.Q) == 0 && isntt(rfp.s2e.zero.Value.Q) && mexp(rfp.s2e.zero.Value.Q) == 1 && val(rfp.s2e.zero.Value.Q) == 0
+//@   requires len(ct.Value) >= 2 && ct.MetaData.CiphertextMetaData.IsNTT && isntt(ct.Value[1]) && mexp(ct.Value[1]) == 0 && len(ct.Value[1].Coeffs) >= 1 && len(ct.Value[0].Coeffs) >= 1
+//@   requires isntt(crs.Value) && dom(crs.Value) == 1 && mexp(crs.Value) == 0 && len(crs.Value.Coeffs) >= 1
+//@   requires len(shareOut.EncToShareShare.Value.Coeffs) >= 1 && len(shareOut.ShareToEncShare.Value.Coeffs) >= 1
+//@   let m = uf_lift(val(rfp.tmpMask))
+//@   ensures implies(isnil(err), val(shareOut.EncToShareShare.Value) == old(val(ct.Value[1])) * val(skIn.Value.Q) + fresh(XSMUDGE, old(draws(XSMUDGE))) - m)
+//@   ensures implies(isnil(err), val(shareOut.ShareToEncShare.Value) == fresh(XSMUDGE, old(draws(XSMUDGE)) + 1) - old(val(crs.Value)) * val(skOut.Value.Q) + m)
